@@ -215,7 +215,7 @@ fn text_for(rng: &mut Rng, doc: usize, n: usize) -> String {
             | 3 => format!("let y{n} = @[import(\"b.zy\")] _ in (y{n}, {n})"),
             | 4 => format!("nope{n}"),
             | 5 => format!("({n}, "),
-            | _ => format!("(\"t{n}\" : @[intrinsic(i64)] _)"),
+            | _ => format!("{}(\"t{n}\" : @[intrinsic(i64)] _)", " ".repeat(n % 5)),
         },
         | _ => match rng.weighted(&[4, 3, 2, 1]) {
             | 0 => format!("{n}"),
@@ -236,7 +236,15 @@ pub fn generate(seed: u64, thorough: bool) -> GeneratedLsp {
     let mut counter = 10usize;
     let mut fresh = |rng: &mut Rng, doc: usize| {
         counter += 1;
-        text_for(rng, doc, counter)
+        let mut text = text_for(rng, doc, counter);
+        // a trailing unattached text block: the analysis SUCCEEDS (a project is cached, hover works)
+        // and still publishes a located warning whose range depends on this very text
+        if rng.chance(2, 5) {
+            for _ in 0..(1 + counter % 3) {
+                text.push_str(&format!("\n--| note {counter}"));
+            }
+        }
+        text
     };
     let disk: Vec<String> = (0..3).map(|doc| fresh(&mut rng, doc)).collect();
     let mut open = [false; 3];
